@@ -19,8 +19,8 @@ LINEAGE = "prqlc/prqlc/src/ir/pl/lineage.rs"
 IDENT = "prqlc/prqlc-parser/src/parser/pr/ident.rs"
 INFERENCE = "prqlc/prqlc/src/semantic/resolver/inference.rs"
 
-LABELS = ["LE1", "LE2", "LE3", "IC1", "IC2", "SH1", "JL1", "JL2", "RN1", "RN2"]
-FUNCTIONS = ["excludes_one", "except_from_star", "is_column_named", "declare_if_new", "shadow_one", "join", "rename_one"]
+LABELS = ["LE1", "LE2", "LE3", "IC1", "IC2", "SH1", "JL1", "JL2", "RN1", "RN2", "IR1"]
+FUNCTIONS = ["excludes_one", "except_from_star", "is_column_named", "declare_if_new", "shadow_one", "join", "rename_one", "inline_ref"]
 OPTIONAL_FUNCTIONS = ["shadow_one"]
 RLIMIT = 60
 
@@ -34,8 +34,15 @@ ASSUMED = [
              "&String == &str compare the character sequences; String::clone / str::to_string keep them",
      "keys": ["fn ident_first", "spec fn first_seg", "fn string_eq", "fn str_eq", "fn clone_string", "fn str_to_string", "fn same_bare_name"]},
     common_std.STR_PREDS_ASSUMPTION,
+    {"what": "inline_ref: `expr.kind.as_ident().unwrap().clone().pop_front().1.unwrap()` is the uninterpreted tail_of(the identifier of the expression): the identifier without its first "
+             "segment; Lineage::find_input is external (found or not: input_found); Ident::from_name(s) is the one-segment identifier s; Ident::clone is the identity; the expression is the "
+             "view {kind_ident, target_id, alias}",
+     "keys": ["fn ident_tail", "spec fn tail_of", "fn find_input_shim", "spec fn input_found", "fn from_name", "fn clone_ident", "struct ExprView"]},
 ]
 TRUSTED = [
+    "oracle (C10, IR1): the columns of the `within` / `except` lists of `select !{..}` and of group's `all this except by` are compared BY NAME (LE1): an entry that refers to a column "
+    "stands for that column whatever alias the entry carries - `group {k = x}` takes `x` out of the frame of the group's pipeline and `select !{k = x}` drops `x`; so the inlined "
+    "reference is named after the referenced column, not after the alias",
     "oracle (C10, SH1): a column defined by derive / select under a name takes that name away from EVERY earlier column that carries it - whatever input it came from: after "
     "`derive x = a.x + b.x` neither `a.x` nor `b.x` can be referred to any more (the loop over the columns is dropped by the slice: the contract is on what happens to ONE column)",
     "oracle (C16 / C05, LE3): `select !{e.salary}` over `e.*` adds `salary` to the star's exception list exactly when the column is qualified with the LOCAL NAME of the star's "
@@ -78,6 +85,13 @@ pub struct LineageInput { pub id: usize, pub name: String, pub table: Ident }
 pub fn same_bare_name(a: &Option<Ident>, b: &Option<Ident>) -> (r: bool)
     ensures r == ((*a is None && *b is None) || (*a is Some && *b is Some && a->0.name@ == b->0.name@)),
 { unimplemented!() }
+pub uninterp spec fn tail_of(i: Ident) -> Ident;
+pub uninterp spec fn input_found(inputs: Seq<LineageInput>, id: usize) -> bool;
+pub struct ExprView { pub kind_ident: Ident, pub target_id: Option<usize>, pub alias: Option<String> }
+#[verifier::external_body] pub fn ident_tail(i: &Ident) -> (r: Ident) ensures r == tail_of(*i), { unimplemented!() }
+#[verifier::external_body] pub fn find_input_shim<'a>(inputs: &'a Vec<LineageInput>, id: usize) -> (r: Option<&'a LineageInput>) ensures r is Some == input_found(inputs@, id), { unimplemented!() }
+#[verifier::external_body] pub fn clone_ident(i: &Ident) -> (r: Ident) ensures r == *i, { unimplemented!() }
+impl Ident { #[verifier::external_body] pub fn from_name(s: &String) -> (r: Ident) ensures r.name == *s, r.path@.len() == 0, { unimplemented!() } }
 pub type Ty = OpaqueT;
 pub open spec fn same_ident(a: Option<Ident>, b: Option<Ident>) -> bool { a == b }
 #[verifier::external_body] pub fn opt_ident_eq(a: &Option<Ident>, b: &Option<Ident>) -> (r: bool) ensures r == same_ident(*a, *b), { unimplemented!() }
@@ -227,8 +241,27 @@ def build(X):
                "        // a star and an unnamed column are left alone\n"
                "        !(*old(col) is Single && old(col)->Single_name is Some) ==> *final(col) == *old(col), // @RN2\n"
                "{\n    " + rn.text + "\n}\n")
+    # ---- an entry that is a plain reference (inline_refs): the column it stands for
+    ir = X.if_blocks(TRANSFORMS, "apply_assign", "if inline_refs && expr.target_id.is_some() {", name="inline_ref", need_else=False)[0]
+    ir.rewrite_re("R1", r"//[^\n]*\n", "\n", count=None, why="comments")
+    ir.rewrite_re("R5", r"\bexpr\.kind\.as_ident\(\)\.unwrap\(\)\.clone\(\)\.pop_front\(\)\.1\.unwrap\(\)", "ident_tail(&expr.kind_ident)", count=None,
+                  why="the identifier of the expression without its first segment")
+    ir.rewrite_re("R5", r"\bself\.find_input\(", "find_input_shim(inputs, ", count=None, why="Lineage::find_input: external")
+    ir.rewrite_re("R5", r"\bself\.columns\.push\(", "columns.push(", count=None, why="self.columns is a parameter of the slice")
+    ir.rewrite_re("R5", r"\b(\w+)\.name\.clone\(\)", r"clone_string(&\1.name)", count=None, why="String::clone")
+    ir.rewrite_re("R5", r"\b(ident|target|alias)\.clone\(\)", r"clone_ident(&\1)", count=None, why="Ident::clone")
+    ir.rewrite_re("R1", r"\breturn;\s*$", "", count=None, why="the `return` that ends the special case: the slice ends there")
+    ir.desugar_option_closures()
+    ir.text = ("pub fn inline_ref(expr: &ExprView, inputs: &Vec<LineageInput>, columns: &mut Vec<LineageColumn>)\n"
+               "    requires expr.target_id is Some,\n"
+               "    ensures\n"
+               "        // C10: the column an entry refers to is listed under ITS name - an alias of the entry does not hide which column is meant\n"
+               "        final(columns)@ == old(columns)@.push(LineageColumn::Single {\n"
+               "            name: Some(tail_of(expr.kind_ident)), target_id: expr.target_id->0,\n"
+               "            target_name: if input_found(inputs@, expr.target_id->0) { Some(tail_of(expr.kind_ident).name) } else { None } }), // @IR1\n"
+               "{\n    " + ir.text + "\n}\n")
     join_text = ("#[verifier::external_body] pub fn vec_extend<T>(v: &mut Vec<T>, o: Vec<T>) ensures final(v)@ == old(v)@ + o@, { unimplemented!() }\n" + lin.text + "\n" + jn.text + "\n")
-    return (PRELUDE + common_std.STR_PREDS + ident.text + "\n" + lc.text + "\n" + SHIMS + ty_field.text + "\n" + f.text + "\n" + ar.text + "\n" + g.text + "\n" + d.text + "\n" + sh.text + "\n" + rn.text + "\n" + join_text
+    return (PRELUDE + common_std.STR_PREDS + ident.text + "\n" + lc.text + "\n" + SHIMS + ty_field.text + "\n" + f.text + "\n" + ar.text + "\n" + g.text + "\n" + d.text + "\n" + sh.text + "\n" + rn.text + "\n" + ir.text + "\n" + join_text
             + "\n} // verus!\nfn main() {}\n")
 
 
